@@ -1,2 +1,103 @@
-From ZC Require Import Model.Base Model.Cache Model.Ingest.
-Example C06_placeholder : True. Proof. exact I. Qed.
+(* C06 - response ingestion and the record-update listener contract. Statements only.
+   ingest : Model/Ingest.v mirrors RecordManager.async_updates_from_response phase by phase (tied to
+   the code by the correspondence check); vocabulary: Spec/IngestSpec.v; invariant: Spec/CacheSpec.v. *)
+From ZC Require Import Model.Base Model.PyRec Model.Dict Model.Re Model.Cache Model.Ingest Gen.Const Gen.DnsPure
+  Spec.CacheSpec Spec.IngestSpec Proofs.C06_ingest.
+
+Section Statements.
+  Variables (now : Z) (answers : list pyrec) (c : cache).
+  Hypothesis HInv : Inv c.                          (* any reachable cache: C05_refines *)
+  Hypothesis Hwf : wf_answers now answers.          (* records as decoded: created = arrival time, 0 <= ttl < 2^32 *)
+  Local Notation R := (ingest now answers c).
+
+  (* ingestion never raises and ends in a well-formed cache *)
+  Theorem C06_total : exists c', i_final R = Ok c' /\ Inv c'.
+  Proof. exact (ingest_total now answers c HInv Hwf). Qed.
+
+  (* each record with non-zero TTL ends up cached with creation time = arrival time and the received TTL
+     (pointer records raised to the 1125 s floor) - that of its last non-zero occurrence in the datagram -
+     unless it was cached before and the same datagram also withdraws it *)
+  Theorem C06_cached : forall c' r, i_final R = Ok c' -> In r answers -> p_ttl r <> 0 ->
+    (in_cache c r = true -> has_goodbye answers r = false) ->
+    exists x a, async_get_unique c' r = Some x /\ last_nonzero answers r = Some a /\
+                p_created x = now /\ p_ttl x = p_ttl (floorr a).
+  Proof. exact (ingest_cached now answers c HInv Hwf). Qed.
+
+  (* each zero-TTL record that was cached is removed; a zero-TTL record of an unknown identity does nothing *)
+  Theorem C06_goodbye : forall c' r, i_final R = Ok c' ->
+    (has_goodbye answers r = true -> in_cache c r = true -> in_cache c' r = false) /\
+    (in_cache c r = false -> last_nonzero answers r = None -> in_cache c' r = false).
+  Proof.
+    intros c' r H. split.
+    - exact (ingest_goodbye now answers c HInv Hwf c' r H).
+    - exact (ingest_goodbye_uncached now answers c HInv Hwf c' r H).
+  Qed.
+
+  (* every other cached record stays; a cache-flush record makes those of the same name, type and class
+     that are older than one second - and only those - expire one second later; the rest are untouched *)
+  Theorem C06_flush_untouched : forall c' x, i_final R = Ok c' -> In x (flat c) -> listed answers x = false ->
+    exists x', async_get_unique c' x = Some x' /\
+               lifetime x' = if flushed now answers x then (now, 1) else lifetime x.
+  Proof. exact (ingest_others now answers c HInv Hwf). Qed.
+
+  (* nothing is invented *)
+  Theorem C06_no_invention : forall c' x, i_final R = Ok c' -> In x (flat c') ->
+    (exists y, In y (flat c) /\ gen_eq y x = true) \/ (exists a, In a answers /\ gen_eq a x = true /\ p_ttl a <> 0).
+  Proof. exact (ingest_no_invention now answers c HInv Hwf). Qed.
+
+  (* the listener contract: called iff there is something to report; the (new, previous) pairs in datagram
+     order; previous is the cached copy iff one existed; while listeners run the first time no new record
+     has been added and no withdrawn record removed, refreshed TTLs and flush marks already visible *)
+  Theorem C06_contract :
+    i_called R = nonempty (i_updates R) /\
+    map u_new (i_updates R) = reported now c answers /\
+    (forall u, In u (i_updates R) -> (u_old u <> None <-> in_cache c (u_new u) = true)) /\
+    (forall u e, In u (i_updates R) -> u_old u = Some e ->
+       gen_eq e (u_new u) = true /\ exists y, In y (flat c) /\ gen_eq y e = true) /\
+    (forall r, in_cache (i_phase1 R) r = in_cache c r) /\
+    (forall x, In x (flat c) ->
+       exists x1, async_get_unique (i_phase1 R) x = Some x1 /\
+         lifetime x1 = match last_nonzero answers x with
+                       | Some a => (now, p_ttl (floorr a))
+                       | None => if negb (listed answers x) && flushed now answers x then (now, 1) else lifetime x
+                       end).
+  Proof.
+    destruct (ingest_contract now answers c HInv Hwf) as (A & B & C & D & E).
+    exact (conj A (conj B (conj C (conj D (conj E (ingest_phase1_lifetimes now answers c HInv Hwf)))))).
+  Qed.
+End Statements.
+
+(* every listener registered when a phase starts is called exactly once in it; listeners added from inside a
+   callback are not called in that phase, removed ones still are (the set is copied before iterating) *)
+Theorem C06_reentrant : forall ls react, fst (fanout ls react) = ls.
+Proof. reflexivity. Qed.
+
+Print Assumptions C06_total.
+Print Assumptions C06_cached.
+Print Assumptions C06_goodbye.
+Print Assumptions C06_flush_untouched.
+Print Assumptions C06_no_invention.
+Print Assumptions C06_contract.
+Print Assumptions C06_reentrant.
+
+(* non-vacuity: a datagram with a refreshed PTR (TTL below the floor) and a cache-flush address record on a non-empty cache *)
+Definition ex_mk k n t cl ttl cr a := {| p_kind := k; p_name := n; p_type_ := t; p_class_ := cl; p_ttl := ttl; p_created := cr;
+       p_address := a; p_scope_id := None; p_cpu := []; p_os := []; p_alias := [120]; p_text := []; p_priority := 0;
+       p_weight := 0; p_port := 0; p_server := []; p_next_name := []; p_rdtypes := [] |}.
+Definition ex_c0 := match i_final (ingest 1000 [ex_mk KPointer [116] 12 1 4500 1000 []; ex_mk KAddress [104] 1 1 120 1000 [1;2;3;4]] empty_cache)
+            with Ok c => c | Raise _ => empty_cache end.
+Definition ex_dg := [ex_mk KPointer [116] 12 1 10 5000 []; ex_mk KAddress [104] 1 32769 120 5000 [1;2;3;5]].
+
+Example C06_example_wf : wf_answers 5000 ex_dg.
+Proof.
+  intros r H. unfold ex_dg in H. cbn [In] in H. destruct H as [H | [H | H]]; [subst r | subst r | contradiction];
+    cbn; (split; [reflexivity | split; [lia | discriminate]]).
+Qed.
+
+Example C06_example :
+  i_called (ingest 5000 ex_dg ex_c0) = true /\ length (i_updates (ingest 5000 ex_dg ex_c0)) = 2%nat /\
+  match i_final (ingest 5000 ex_dg ex_c0) with
+  | Ok c' => map lifetime (flat c') = [(5000, 1); (5000, 120); (5000, 1125)]
+  | Raise _ => False
+  end.
+Proof. vm_compute. repeat split; reflexivity. Qed.
